@@ -451,15 +451,16 @@ async fn s_delnodes(inst: &mut Inst, scn: &mut Scn, room: usize, ts: Vec<(usize,
 }
 
 /// edge tombstones: (src node index, dest node index, cdate, deletion date)
-async fn s_deledges(inst: &mut Inst, scn: &mut Scn, room: usize, ts: Vec<(usize, usize, i64, i64)>) {
+async fn s_deledges(inst: &mut Inst, scn: &mut Scn, room: usize, ts: Vec<(usize, usize, i64, i64)>) { s_deledges_ent(inst, scn, room, ts, 1).await }
+async fn s_deledges_ent(inst: &mut Inst, scn: &mut Scn, room: usize, ts: Vec<(usize, usize, i64, i64)>, ent: u64) {
     let mut entries = vec![];
     let mut sym = vec![];
     for (si, di, cdate, date) in ts {
         let (s, d) = (scn.nodes[si].clone(), scn.nodes[di].clone());
-        let edge = Edge { src: s.uid, src_entity: inst.names.person.clone(), label: inst.names.label.clone(), dest: d.uid, cdate, ..Default::default() };
+        let edge = Edge { src: s.uid, src_entity: ent_short(&inst.names, ent), label: inst.names.label.clone(), dest: d.uid, cdate, ..Default::default() };
         let e = EdgeDeletionEntry::build(scn.rooms[room], &edge, date, &inst.peer);
         let sig = scn.sig(&e.signature);
-        sym.push((room, s.idx, 1u64, d.idx, cdate, date, sig));
+        sym.push((room, s.idx, ent, d.idx, cdate, date, sig));
         entries.push(e);
         scn.edges.retain(|x| !(x.0 == s.idx && x.1 == d.idx && x.2 == cdate));
     }
@@ -644,11 +645,22 @@ async fn directed(inst: &mut Inst, out: &mut Out, which: u64) {
             l_delref(inst, &mut scn, 0, 1).await;
             do_check(inst, &mut scn).await;
         }
-        7 => { // a synchronised version that arrives under ANOTHER entity for a stored id
+        7 => { // repaired (9b19d99), must pass: a synchronised version that arrives under ANOTHER entity for a stored id
             s_nodes(inst, &mut scn, 0, vec![(None, 1, d(0, 5000)), (None, 1, d(0, 6000))]).await;
             do_compute(inst, &mut scn).await; do_check(inst, &mut scn).await;
             tick(&mut scn, d(2, 50));
             s_nodes(inst, &mut scn, 0, vec![(Some(0), 2, d(1, 7000))]).await;
+            do_compute(inst, &mut scn).await; do_check(inst, &mut scn).await;
+        }
+        8 => { // an edge tombstone is replaced by one for the same edge and instant under another source entity
+            l_create(inst, &mut scn, 1, Some(0), false).await;
+            l_create(inst, &mut scn, 1, Some(0), false).await;
+            l_addref(inst, &mut scn, 0, 1).await;
+            let e = scn.edges[0];
+            let dd = scn.now - 3;
+            s_deledges(inst, &mut scn, 0, vec![(0, 1, e.2, dd)]).await;
+            do_compute(inst, &mut scn).await; do_check(inst, &mut scn).await;
+            s_deledges_ent(inst, &mut scn, 0, vec![(0, 1, e.2, dd)], 2).await;
             do_compute(inst, &mut scn).await; do_check(inst, &mut scn).await;
         }
         _ => {}
@@ -749,7 +761,7 @@ async fn main() {
     let mut rng = Rng::from_env();
     let mut inst = Inst::start(&format!("inst{}", seed())).await;
     let only: Option<u64> = std::env::var("VERIF_ONLY").ok().and_then(|s| s.parse().ok());
-    for w in 0..8 { if only.is_none() || only == Some(w) { directed(&mut inst, &mut out, w).await; } }
+    for w in 0..9 { if only.is_none() || only == Some(w) { directed(&mut inst, &mut out, w).await; } }
     let n = if only.is_some() { 0 } else { scale(130, 1500) };
     for i in 0..n {
         let mut r = rng.fork();
